@@ -32,6 +32,14 @@ func init() {
 			for i := 0; i < n; i++ {
 				cs = append(cs, Case{Kind: "gen", Seed: h.Mix(seed, 0xC01, uint64(i))})
 			}
+			// structured call trees (nested DELEGATECALL/CALLCODE chains, creates, values; every frame stores CALLER/CALLVALUE/ADDRESS/ORIGIN)
+			nt := 200
+			if !quick(tier) {
+				nt = 8000
+			}
+			for i := 0; i < nt; i++ {
+				cs = append(cs, Case{Kind: "tree", Seed: h.Mix(seed, 0xC01A, uint64(i))})
+			}
 			// every DUPn / SWAPn / LOGn / PUSHn at the stack heights around its declared minimum and maximum
 			for _, f := range []h.Fork{h.Frontier, h.Shanghai} {
 				cs = append(cs, Case{Kind: "stackop", P: []int64{int64(f)}})
@@ -173,6 +181,9 @@ func runC01(c Case, tier string) (res CaseResult) {
 		}
 		res.Evals = int64(n)
 		_ = uint256.NewInt
+	case "tree":
+		dualCompare(&res, genDualTree(c.Seed), c01Cfgs)
+		res.Count("tree_cases", 1)
 	case "stackop":
 		f := h.Fork(c.P[0])
 		n := 0
